@@ -58,6 +58,20 @@ def run(chk):
             f["composition models"] = [{"model": "uniform", "compositions": [0]}]
             for k in ("temperature models", "grains models", "velocity models"):
                 f.pop(k, None)
+        above = (not sph) and wi % 5 == 2
+        if above:
+            # a short, thin, steep slab with a strongly negative top truncation: the part of the feature above its top
+            # surface reaches further from the trench (and, overturned, deeper) than length + thickness
+            f.pop("sections", None)
+            f.pop("max depth", None)
+            if f["model"] == "fault":
+                f["model"] = "subducting plate"
+            th0 = float(round(rng.uniform(1e4, 3e4)))
+            f["segments"] = [{"length": float(round(rng.uniform(4e4, 9e4))), "thickness": [th0],
+                              "top truncation": [-float(round(rng.uniform(8e4, 2e5)))], "angle": [float(round(rng.choice([rng.uniform(60, 89), rng.uniform(95, 140)]), 1))]}]
+            f["composition models"] = [{"model": "uniform", "compositions": [0], "min distance slab top": -3e5}]
+            for k in ("temperature models", "grains models", "velocity models"):
+                f.pop(k, None)
         dateline = sph and wi % 3 == 0
         if dateline:
             # a trench just east of the date line written with negative longitudes, dipping west: the feature and its
@@ -96,6 +110,25 @@ def run(chk):
             curve = [allpts[rng.randrange(25)] for _ in range(40)]      # near the apex of the bulge
         for qi in range(40):
             pos, d = line_query(rng, wj, sph, f)
+            if above and qi % 2 == 0:
+                import math
+                sg = f["segments"][0]
+                th = math.radians(sg["angle"][0])
+                c0, c1 = f["coordinates"][0], f["coordinates"][1]
+                tt = rng.uniform(0.2, 0.8)
+                bx, by = c0[0] + tt * (c1[0] - c0[0]), c0[1] + tt * (c1[1] - c0[1])
+                dx, dy = c1[0] - c0[0], c1[1] - c0[1]
+                L = math.hypot(dx, dy)
+                nx, ny = -dy / L, dx / L
+                if (f["dip point"][0] - c0[0]) * nx + (f["dip point"][1] - c0[1]) * ny < 0:
+                    nx, ny = -nx, -ny
+                al = rng.uniform(0.05, 1.0) * sg["length"]
+                off = rng.uniform(0.3, 0.98) * sg["top truncation"][0]          # negative: above the top surface
+                u = al * math.cos(th) - off * math.sin(th)
+                v = al * math.sin(th) + off * math.cos(th)
+                if v >= 0:
+                    d = float(round(f.get("min depth", 0.0) + v))
+                    pos = (bx + u * nx, by + u * ny, 1000e3 - d)
             if wedge and qi % 2 == 0:
                 # deep inside the thick lower end of the wedge
                 import math
